@@ -31,7 +31,12 @@ def kind_pools():
     dates = [("date", "19991231235959"), ("date", "20000101000000"),
              ("date", "20000101000001"), ("date", "20200229120000"),
              ("date", "20200301000000"), ("date", "99991231235959"),
-             ("date", "19000101000000")]
+             ("date", "19000101000000"),
+             # instants inside one second; years with fewer than 4 digits
+             ("date", "20000101000000.000001"),
+             ("date", "20000101000000.000002"),
+             ("date", "20000101000000.500000"),
+             ("date", "09991231235959"), ("date", "00010101000000")]
     numl = [list(t) for n in range(4)
             for t in itertools.product([1, 1.0, 2], repeat=n)]
     strl = [list(t) for n in range(4)
@@ -229,7 +234,10 @@ ENUM_POOLS = {
     "numeric": [2, 1.0, -1, -1.5, -0.5, 0, 1.5, 2 ** 53 + 1],
     "string": [" a", "'", "a", "B", "a b", "\t"],
     "date": [("date", "20000101000000"), ("date", "19991231235959"),
-             ("date", "20200229120000"), ("date", "20000101000001")],
+             ("date", "20200229120000"), ("date", "20000101000001"),
+             ("date", "20000101000000.000002"),
+             ("date", "20000101000000.000001"),
+             ("date", "09991231235959")],
     "boolean": [True, False],
     "list-of-numbers": [[1], [1, 2], [0.5, 3], [], [2]],
 }
